@@ -11,7 +11,7 @@ def run(tier, seed):
               EX.ExcelModel.from_dict, EX.ExcelModel.assemble)
     ck.assume('kernels: symbolic rectangles on the full 16384 x 1048576 grid with a symbolic witness cell; _assemble_values runs on a recording grid instead of a numpy array; rows carried as ints',
               'workbook level: template, two constants from the 8-entry value pool and one of 6 insertion orders are boolean selectors; each path builds the real model natively; fixed point = every formula cell equals its own formula (compiled alone) applied to the solved values of the cells it refers to')
-    ck.out_of_scope('interpreter hash seed (PYTHONHASHSEED) and the file loading path', 'whole-column references inside workbooks', 'workbooks outside the three template families')
+    ck.out_of_scope('interpreter hash seeds other than the listed ones (2 in the quick tier, 5 in the thorough tier)', 'the file loading path (C15 loads real files)', 'whole-column references inside workbooks', 'workbooks outside the three template families')
     quick = tier == 'quick'
     hs, batch = [], Batch()
     T = 170 if quick else 900
@@ -20,9 +20,14 @@ def run(tier, seed):
         h = Harness(ck, 'c03_kernels', src); hs.append(h)
         batch.add(h, T)
         bsrc = open(os.path.join(ROOT, 'harness', 'c03_books.py')).read()
+        # the interpreter's hash seed is an explored parameter too: the same exploration is repeated in
+        # processes started under different PYTHONHASHSEED values (the fixed point of an acyclic
+        # workbook is unique, so "fixed point under every seed" implies "same result under every seed")
+        hashseeds = [0, 1] if quick else [0, 1, 2, 3, 1 + seed % 4000000000]
         for t in range(3):
-            h = Harness(ck, 'c03_books_t%d' % t, bsrc.replace('__T__', str(t))); hs.append(h)
-            batch.add(h, T, only=['fixed_point_ok'], bounds='template %d x 8 x 8 constants x 6 insertion orders (384 workbooks): order independence, fixed point, constants kept' % t)
+            for hsd in hashseeds:
+                h = Harness(ck, 'c03_books_t%d_hs%d' % (t, hsd), '# PYTHONHASHSEED = %d\n' % hsd + bsrc.replace('__T__', str(t))); hs.append(h)
+                batch.add(h, T, only=['fixed_point_ok'], bounds='template %d x 8 x 8 constants x 6 insertion orders (384 workbooks), PYTHONHASHSEED=%d: order independence, fixed point, constants kept' % (t, hsd))
         batch.run()
     finally:
         for h in hs:
